@@ -136,7 +136,7 @@ fn cmd_gen(args: &[String]) -> i32 {
                             if o.nontrivial_hashes.len() < HASH_CAP_PER_WORKER {
                                 o.nontrivial_hashes.insert(outcome.hash);
                             }
-                            if o.samples.len() < 2 && outcome.stats.cyclic_rounds > 0 {
+                            if o.samples.len() < 3 && outcome.stats.cyclic_rounds > 0 {
                                 o.samples.push((idx, sim::history_json(&history, &outcome)));
                             }
                         }
